@@ -1493,4 +1493,132 @@ def Heap.PopPost (data : List α) : Res ε α (Option α × List α) → Prop
   | .fail _ buf _ => ∃ root, data.head? = some root ∧ (root :: buf).Perm data
   | .panic => True
 
+/-! ## `quickselect` stays inside the array for every comparator (after 9e13c00) -/
+
+/-- post-condition with an index bound: not a panic, and an `ok` payload satisfies `Q` -/
+def OkSat (Q : β → Prop) : Res ε α β → Prop
+  | .ok v _ => Q v
+  | .fail _ _ _ => True
+  | .panic => False
+
+theorem OkSat.bind {Q : β → Prop} {Q' : γ → Prop} {r : Res ε α β} {f : β → Nat → Res ε α γ}
+    (h : OkSat Q r) (hf : ∀ v n, Q v → OkSat Q' (f v n)) : OkSat Q' (r.bind f) := by
+  cases r with
+  | ok v n => exact hf v n h
+  | fail e b n => trivial
+  | panic => exact h
+
+namespace Select
+
+theorem swap_some {l : List α} {i j : Nat} (hi : i < l.length) (hj : j < l.length) :
+    ∃ l', swap l i j = some l' ∧ l'.length = l.length := by
+  unfold swap
+  rw [List.getElem?_eq_getElem hi, List.getElem?_eq_getElem hj]
+  exact ⟨_, rfl, by simp⟩
+
+theorem partLoop_ok (cmp : Cmp3 ε α) (pivot : α) (k : Nat) (items : List α) (j ret n : Nat)
+    (hret : ret ≤ j) (hjk : j + k ≤ items.length) :
+    OkSat (fun p : List α × Nat => p.1.length = items.length ∧ ret ≤ p.2 ∧ p.2 ≤ j + k)
+      (partLoop cmp pivot k items j ret n) := by
+  induction k generalizing items j ret n with
+  | zero => exact ⟨rfl, Nat.le_refl _, hret⟩
+  | succ k ih =>
+    simp only [partLoop]
+    have hj : j < items.length := by omega
+    rw [List.getElem?_eq_getElem hj]
+    simp only
+    cases cmp n items[j] pivot with
+    | error e => trivial
+    | ok c =>
+      simp only
+      split
+      · obtain ⟨l', hs, hl⟩ := swap_some (l := items) (i := j) (j := ret) hj (by omega)
+        rw [hs]
+        simp only
+        have := ih l' (j + 1) (ret + 1) (n + 1) (by omega) (by omega)
+        revert this
+        cases partLoop cmp pivot k l' (j + 1) (ret + 1) (n + 1) with
+        | ok v m => intro this; exact ⟨by rw [this.1, hl], by have := this.2.1; omega, by have := this.2.2; omega⟩
+        | fail e b m => intro _; trivial
+        | panic => intro this; exact this
+      · have := ih items (j + 1) ret (n + 1) (by omega) (by omega)
+        revert this
+        cases partLoop cmp pivot k items (j + 1) ret (n + 1) with
+        | ok v m => intro this; exact ⟨this.1, this.2.1, by have := this.2.2; omega⟩
+        | fail e b m => intro _; trivial
+        | panic => intro this; exact this
+
+theorem choosePivot_ok (cmp : Cmp3 ε α) (items : List α) (left right n : Nat)
+    (hlr : left ≤ right) (hr : right < items.length) :
+    OkSat (fun p : Nat => p < items.length) (choosePivot cmp items left right n) := by
+  unfold choosePivot
+  have hl : left < items.length := by omega
+  have hm : (left + right) / 2 < items.length := by omega
+  simp only [List.getElem?_eq_getElem hl, List.getElem?_eq_getElem hr, List.getElem?_eq_getElem hm]
+  split
+  · trivial
+  · split
+    · trivial
+    · split
+      · exact hl
+      · split
+        · trivial
+        · split
+          · exact hr
+          · exact hm
+
+theorem partition_ok (cmp : Cmp3 ε α) (items : List α) (left right n : Nat)
+    (hlr : left ≤ right) (hr : right < items.length) :
+    OkSat (fun p : List α × Nat => p.1.length = items.length ∧ left ≤ p.2 ∧ p.2 ≤ right)
+      (partition cmp items left right n) := by
+  unfold partition
+  split
+  · rename_i h; exact ⟨rfl, Nat.le_refl _, by omega⟩
+  · refine (choosePivot_ok cmp items left right n hlr hr).bind (fun piv n1 hpiv => ?_)
+    obtain ⟨items1, hs, hl1⟩ := swap_some (l := items) (i := piv) (j := right) hpiv hr
+    rw [hs]
+    simp only
+    rw [List.getElem?_eq_getElem (by omega : right < items1.length)]
+    simp only
+    refine (partLoop_ok cmp _ (right - left) items1 left left n1 (Nat.le_refl _) (by omega)).bind
+      (fun st n2 hst => ?_)
+    obtain ⟨h1, h2, h3⟩ := hst
+    obtain ⟨items2, hs2, hl2⟩ := swap_some (l := st.1) (i := st.2) (j := right) (by omega) (by omega)
+    rw [hs2]
+    exact ⟨by simp only; omega, h2, by simp only; omega⟩
+
+theorem selectLoop_ok (cmp : Cmp3 ε α) (target fuel : Nat) (arr : List α) (left right n : Nat)
+    (hlt : left ≤ target) (htr : target ≤ right) (hr : right < arr.length) (hf : right - left < fuel) :
+    OkSat (fun _ : α × List α => True) (selectLoop cmp target fuel arr left right n) := by
+  induction fuel generalizing arr left right n with
+  | zero => omega
+  | succ fuel ih =>
+    simp only [selectLoop]
+    refine (partition_ok cmp arr left right n (by omega) hr).bind (fun st n1 hst => ?_)
+    obtain ⟨arr', p⟩ := st
+    obtain ⟨h1, h2, h3⟩ := hst
+    simp only at h1 h2 h3 ⊢
+    split
+    · rw [List.getElem?_eq_getElem (by omega : p < arr'.length)]
+      trivial
+    · split
+      · split
+        · omega
+        · exact ih arr' left (p - 1) n1 hlt (by omega) (by omega) (by omega)
+      · exact ih arr' (p + 1) right n1 (by omega) htr (by omega) (by omega)
+
+/-- after the repair 9e13c00: for EVERY comparator (inconsistent ones included) and every rank inside
+the array, `quickselect` never indexes out of bounds (and never exhausts the model's fuel) -/
+theorem quickselect_ok (cmp : Cmp3 ε α) (arr : List α) (target : Nat) (ht : target < arr.length) :
+    quickselect cmp arr target ≠ .panic := by
+  unfold quickselect
+  split
+  · omega
+  · have := selectLoop_ok cmp target (arr.length + 1) arr 0 (arr.length - 1) 0 (Nat.zero_le _)
+      (by omega) (by omega) (by omega)
+    intro h
+    rw [h] at this
+    exact this
+
+end Select
 end XrayModel.Sort
